@@ -57,18 +57,66 @@ Definition net_ack (cfg : config) (s : state) (v t : nat) : nat :=
   list_max_by (fun d => list_max_by (app_ack v t) (net s d)) (servers cfg).
 Definition lead_ack (s : state) (v t : nat) : nat :=
   if is_leader_in s t v then List.length (s_log (srv s v)) else 0.
-Definition observe_ack (cfg : config) (a : acks) (s : state) : acks :=
-  fun v t => Nat.max (a v t) (Nat.max (net_ack cfg s v t) (lead_ack s v t)).
+(* v handled an AppendEntriesRequest of term t in this step and accepted it (seen from the states before and after) *)
+Fixpoint entries_eqb (l1 l2 : list entry) : bool :=
+  match l1, l2 with
+  | [], [] => true
+  | x :: r1, y :: r2 => entry_eqb x y && entries_eqb r1 r2
+  | _, _ => false
+  end.
+Definition apq_accepted (sv sv' : server) (t : nat) : nat :=
+  match s_m sv with
+  | Some (APQ mt prev prevT es _ _ _) =>
+      if s_pc0 sv && negb (s_pc0 sv') && (mt =? t) && (s_term sv' =? t) && role_eqb (s_role sv') Follower
+         && ((prev =? 0) || ((0 <? prev) && match term_at (s_log sv) prev with Some x => prevT =? x | None => false end))
+         && entries_eqb (s_log sv') (firstn prev (s_log sv) ++ es)
+      then prev + List.length es else 0
+  | _ => 0
+  end.
+Definition observe_ack (cfg : config) (a : acks) (s s' : state) : acks :=
+  fun v t => Nat.max (a v t) (Nat.max (net_ack cfg s' v t) (Nat.max (lead_ack s' v t) (apq_accepted (srv s v) (srv s' v) t))).
 
 Inductive areach (cfg : config) : state -> ghost -> acks -> Prop :=
 | ar_init : areach cfg (init cfg) ghost0 (fun _ _ => 0)
 | ar_step s g a ev s' : areach cfg s g a -> step cfg s ev = Commit s' ->
-                        areach cfg s' (observe cfg g s') (observe_ack cfg a s').
+                        areach cfg s' (observe cfg g s') (observe_ack cfg a s s').
 
 Lemma areach_greach cfg s g a : areach cfg s g a -> greach cfg s g.
 Proof. induction 1; [constructor | econstructor; eauto]. Qed.
 Lemma reachable_areach cfg s : reachable cfg s -> exists g a, areach cfg s g a.
 Proof. induction 1 as [|s ev s' _ (g & a & Hg) Hs]; [eexists _, _; constructor | eexists _, _; econstructor; eauto]. Qed.
+
+Lemma entry_eqb_eq x y : entry_eqb x y = true -> x = y.
+Proof.
+  destruct x as [t1 [i1 ty1 k1 v1] c1], y as [t2 [i2 ty2 k2 v2] c2]. unfold entry_eqb, cmd_eqb. cbn. intros H.
+  repeat match goal with H : (_ && _) = true |- _ => apply andb_prop in H as [? ?] end.
+  repeat match goal with H : (_ =? _) = true |- _ => apply Nat.eqb_eq in H end.
+  assert (ty1 = ty2) by (destruct ty1, ty2; cbn in *; congruence). congruence.
+Qed.
+Lemma entries_eqb_eq l1 l2 : entries_eqb l1 l2 = true -> l1 = l2.
+Proof.
+  revert l2; induction l1 as [|x r IH]; destruct l2 as [|y r2]; cbn; try discriminate; auto.
+  intros H. apply andb_prop in H as [H1 H2]. f_equal; [now apply entry_eqb_eq | now apply IH].
+Qed.
+
+Lemma accepted_facts sv sv' t k : 1 <= k -> k <= apq_accepted sv sv' t ->
+  exists prev prevT es mc j dd,
+    s_m sv = Some (APQ t prev prevT es mc j dd) /\ s_pc0 sv = true /\ s_pc0 sv' = false /\
+    s_role sv' = Follower /\ s_term sv' = t /\
+    (prev = 0 \/ (0 < prev /\ term_at (s_log sv) prev = Some prevT)) /\
+    s_log sv' = firstn prev (s_log sv) ++ es /\ k <= prev + List.length es.
+Proof.
+  intros Hk1 Hk. unfold apq_accepted in Hk. destruct (s_m sv) as [m|]; [|lia]. destruct m; try lia.
+  match type of Hk with context [if ?c then _ else _] => destruct c eqn:E end; [|lia].
+  repeat match goal with H : (_ && _) = true |- _ => apply andb_prop in H as [? ?] end.
+  exists mprevLogIndex, mprevLogTerm, mentries, mcommitIndex, msource, mdest.
+  repeat match goal with H : (_ =? _) = true |- _ => apply Nat.eqb_eq in H end.
+  subst. apply negb_true_iff in H5. apply role_eqb_eq in H2. apply entries_eqb_eq in H0.
+  repeat split; auto.
+  apply orb_prop in H1 as [H1|H1]; [left; now apply Nat.eqb_eq in H1|right].
+  apply andb_prop in H1 as [A B]. apply Nat.ltb_lt in A. split; auto.
+  destruct (term_at (s_log sv) mprevLogIndex); [|discriminate]. apply Nat.eqb_eq in B. congruence.
+Qed.
 
 Lemma max_ge_l a b c : c <= a -> c <= Nat.max a b. Proof. lia. Qed.
 Lemma max_ge_r a b c : c <= b -> c <= Nat.max a b. Proof. lia. Qed.
@@ -85,29 +133,30 @@ Proof.
   apply max_le; [apply H; now left | apply IH; intros x Hx; apply H; now right].
 Qed.
 
-Lemma observe_ack_mono cfg a s v t : a v t <= observe_ack cfg a s v t.
+Lemma observe_ack_mono cfg a s0 s v t : a v t <= observe_ack cfg a s0 s v t.
 Proof. unfold observe_ack. lia. Qed.
-Lemma observe_ack_net cfg a s d m v t :
-  is_server cfg d = true -> In m (net s d) -> app_ack v t m <= observe_ack cfg a s v t.
+Lemma observe_ack_net cfg a s0 s d m v t :
+  is_server cfg d = true -> In m (net s d) -> app_ack v t m <= observe_ack cfg a s0 s v t.
 Proof.
   intros Hd Hin. unfold observe_ack, net_ack.
   pose proof (list_max_by_ge (app_ack v t) (net s d) m Hin).
   pose proof (list_max_by_ge (fun d => list_max_by (app_ack v t) (net s d)) (servers cfg) d (proj2 (in_servers cfg d) Hd)).
   cbn beta in *. lia.
 Qed.
-Lemma observe_ack_lead cfg a s v : s_role (srv s v) = Leader ->
-  List.length (s_log (srv s v)) <= observe_ack cfg a s v (s_term (srv s v)).
+Lemma observe_ack_lead cfg a s0 s v : s_role (srv s v) = Leader ->
+  List.length (s_log (srv s v)) <= observe_ack cfg a s0 s v (s_term (srv s v)).
 Proof.
   intros Hl. unfold observe_ack, lead_ack.
   assert (is_leader_in s (s_term (srv s v)) v = true) as -> by (apply is_leader_in_spec; auto). lia.
 Qed.
-Lemma observe_ack_le cfg a s v t b :
+Lemma observe_ack_le cfg a s0 s v t b :
   a v t <= b ->
   (forall d m, is_server cfg d = true -> In m (net s d) -> app_ack v t m <= b) ->
   (s_role (srv s v) = Leader -> s_term (srv s v) = t -> List.length (s_log (srv s v)) <= b) ->
-  observe_ack cfg a s v t <= b.
+  apq_accepted (srv s0 v) (srv s v) t <= b ->
+  observe_ack cfg a s0 s v t <= b.
 Proof.
-  intros Ha Hn Hl. unfold observe_ack, net_ack, lead_ack.
+  intros Ha Hn Hl Hacc. unfold observe_ack, net_ack, lead_ack.
   assert (list_max_by (fun d => list_max_by (app_ack v t) (net s d)) (servers cfg) <= b).
   { apply list_max_by_le. intros d Hd. apply list_max_by_le. intros m Hm. apply (Hn d m); auto. now apply in_servers. }
   destruct (is_leader_in s t v) eqn:E.
@@ -125,10 +174,10 @@ Lemma tl_step_cases cfg s g ev s' :
     (gl g t = 0 /\ tl g t = [] /\
      exists i, is_server cfg i = true /\ gl (observe cfg g s') t = i /\ s_role (srv s i) = Candidate /\ s_term (srv s i) = t /\
                tl (observe cfg g s') t = s_log (srv s i) /\ s_log (srv s' i) = s_log (srv s i) /\
-               s_role (srv s' i) = Leader /\ s_term (srv s' i) = t).
+               s_role (srv s' i) = Leader /\ s_term (srv s' i) = t /\ is_quorum cfg (s_vgrant (srv s i)) = true).
 Proof.
   intros IE I H t.
-  destruct (ghost_step _ _ _ _ _ IE I H t) as [(_ & A & B)|(i & _ & Hi & Hr & Ht & A & B & [(C & D & E & F)|(C & D & E & F & _)])].
+  destruct (ghost_step _ _ _ _ _ IE I H t) as [(_ & A & B)|(i & _ & Hi & Hr & Ht & A & B & [(C & D & E & F)|(C & D & E & F & Q)])].
   - left. auto.
   - rewrite A, B. rewrite C in *. rewrite F.
     destruct (role_term_log_cases _ _ _ _ i H) as [(_ & _ & X & _)|[(m & _ & _ & X & _)|(l & out & ltr & _ & Hc)]].
@@ -308,7 +357,7 @@ Section AinvStep.
   Hypothesis H : step cfg s ev = Commit s'.
   Hypothesis Hfifo : cfg_fifo cfg = true.
   Let g' := observe cfg g s'.
-  Let a' := observe_ack cfg a s'.
+  Let a' := observe_ack cfg a s s'.
   Hypothesis I' : linv cfg s' g'.
 
   Lemma S1_step t : sorted_terms (tl g' t) /\ (forall e, In e (tl g' t) -> e_term e <= t).
@@ -355,7 +404,7 @@ Section AinvStep.
   Proof.
     destruct m; try (intros; exact Logic.I). destruct msuccess; try (intros; exact Logic.I).
     unfold app_inv. intros [A B]. split; auto.
-    pose proof (observe_ack_mono cfg a s' msource mterm) as Hmono. fold a' in Hmono. lia.
+    pose proof (observe_ack_mono cfg a s s' msource mterm) as Hmono. fold a' in Hmono. lia.
   Qed.
 
   (* the message sent by the acting server *)
@@ -379,7 +428,7 @@ Section AinvStep.
       destruct (core_app_out _ _ _ _ _ _ _ _ _ _ _ _ _ Hc) as (prev & prevT & es & mc & j & dd & Hm & _ & _ & _ & _ & _ & -> & -> & _).
       split; auto.
       destruct (Qm _ _ _ _ IA _ _ Hm) as [(_ & Hj & _) _].
-      pose proof (observe_ack_net cfg a s' j _ i mterm Hj Hin) as Hb. fold a' in Hb.
+      pose proof (observe_ack_net cfg a s s' j _ i mterm Hj Hin) as Hb. fold a' in Hb.
       cbn in Hb. rewrite !Nat.eqb_refl in Hb. exact Hb.
   Qed.
 
@@ -476,6 +525,10 @@ Section AinvStep.
       + rewrite Hnet in Hin. auto.
     - intros Hl Ht. pose proof (Ls_step v Hl) as Hv.
       rewrite (T0 _ _ _ I' v Hv Hl). fold g'. rewrite Ht. lia.
+    - destruct (Nat.eq_dec (apq_accepted (srv s v) (srv s' v) t) 0) as [->|Hnz]; [lia|].
+      destruct (accepted_facts (srv s v) (srv s' v) t _ (proj1 (Nat.neq_0_lt_0 _) Hnz) (le_n _))
+        as (prev & prevT & es & mc & j & dd & Hm & _ & _ & _ & _ & Hok & _ & Hle).
+      destruct (accept_len _ _ _ _ _ _ _ _ Hm Hok) as (_ & Hb & _). lia.
   Qed.
 
   (* where a new acknowledgement can come from *)
@@ -491,6 +544,14 @@ Section AinvStep.
   Proof.
     intros Hk1 Hk. unfold a', observe_ack in Hk.
     destruct (Nat.le_gt_cases k (a v t)) as [|Hgt]; auto. right.
+    destruct (Nat.le_gt_cases k (apq_accepted (srv s v) (srv s' v) t)) as [Hacc|Hacc].
+    { left. destruct (accepted_facts _ _ _ _ Hk1 Hacc) as (prev & prevT & es & mc & j & dd & Hm & Hp & Hp' & Rf & Tm & Hok & El & Hle).
+      exists prev, prevT, es, mc, j, dd. pose proof (term_monotone_step _ _ _ _ v H) as Hmono.
+      assert (Hv : is_server cfg v = true).
+      { destruct (step_srv_cases _ _ _ _ H v) as [E|[(l & out & ltr & Hv & _)|(m & E)]]; auto.
+        - rewrite E in Hp'. congruence.
+        - rewrite E in Hp'. cbn in Hp'. discriminate. }
+      repeat split; auto. lia. }
     destruct (Nat.le_gt_cases k (lead_ack s' v t)) as [Hl|Hl].
     - right. unfold lead_ack in Hl. destruct (is_leader_in s' t v) eqn:E; [|lia].
       apply is_leader_in_spec in E as [E1 E2]. auto.
